@@ -17,6 +17,7 @@ package bastion
 
 import (
 	"bufio"
+	"bytes"
 	"context"
 	"crypto/ed25519"
 	"crypto/rand"
@@ -215,6 +216,18 @@ func (a *addHandler) handleUpdate(ctx context.Context, logID string, origin stri
 	return http.StatusOK, body, "", nil
 }
 
+// readLine reads the next line of the request, which must end in "\n", and returns it without that terminator.
+// Unlike bufio's ReadLine it does not also drop a "\r" (the lines of the format end in "\n" alone: "old 5\r" is not an
+// old size line and "\r" is not the blank separator), it does not return an unterminated last line, and it refuses a
+// line that does not fit the reader's buffer instead of returning it in pieces. The result is only valid until the next read.
+func readLine(b *bufio.Reader) ([]byte, error) {
+	l, err := b.ReadSlice('\n')
+	if err != nil {
+		return nil, err
+	}
+	return bytes.TrimSuffix(l, []byte("\n")), nil
+}
+
 // parseBody reads the incoming request and parses into constituent parts.
 //
 // The request body MUST be a sequence of
@@ -224,15 +237,10 @@ func (a *addHandler) handleUpdate(ctx context.Context, logID string, origin stri
 // - followed by a [checkpoint][].
 func parseBody(r io.Reader) (uint64, [][]byte, []byte, error) {
 	b := bufio.NewReader(r)
-	sizeLine, isPrefix, err := b.ReadLine()
+	sizeLine, err := readLine(b)
 	if err != nil {
 		klog.Infof("read sizeline: %v", err)
 		return 0, nil, nil, err
-	}
-	if isPrefix {
-		// ReadLine returns a line that does not fit its buffer in pieces: such a line is neither an old-size line
-		// nor a proof line, and its pieces must not be taken for separate lines.
-		return 0, nil, nil, fmt.Errorf("old size line too long")
 	}
 	// The size line must be exactly "old <decimal>": Sscanf would also accept trailing garbage ("old 5x"),
 	// extra fields, other bases ("old 0x10") and digit separators.
@@ -248,16 +256,17 @@ func parseBody(r io.Reader) (uint64, [][]byte, []byte, error) {
 	}
 	proof := [][]byte{}
 	for {
-		l, isPrefix, err := b.ReadLine()
+		l, err := readLine(b)
 		if err != nil {
 			klog.Infof("read proofline: %v", err)
 			return 0, nil, nil, err
 		}
-		if isPrefix {
-			return 0, nil, nil, fmt.Errorf("proof line too long")
-		}
 		if len(l) == 0 {
 			break
+		}
+		if bytes.IndexByte(l, '\r') >= 0 {
+			// The base64 decoder skips "\r" and "\n": a proof line is base64 and nothing else.
+			return 0, nil, nil, fmt.Errorf("invalid proof line %q", l)
 		}
 		hash, err := base64.StdEncoding.DecodeString(string(l))
 		if err != nil {
